@@ -22,7 +22,7 @@ UNPROVED = ["the real bounding box encloses its piece only up to C02's bands (ex
 ASSUMPTIONS = ["box encloses piece (see above)", "math.sqrt real"]
 LEVEL_TEXT = ("theorems for every environment (evaluation, halving, box, overlap, smallness, key): cc_complete (if every box encloses its piece then every common point of the "
               "two curves is reported, before and after the duplicate filter at every level, within half a terminal range in both parameters — ranges_halve: a terminal "
-              "range at depth k has length 2^-k), cc_complete_close (with the repaired filter, keyed on the two-decimal buckets of BOTH parameters, the surviving report is within 0.01 in both parameters of a report lying within half a terminal range of the crossing), pinned_filter_counterexample (F25: keyed on the first parameter only the filter drops the second of two crossings), dedupe_key_survives / key_close / key_far (the first report of every key survives; two reports whose parameters are 0.02 or more apart never share a two-decimal "
+              "range at depth k has length 2^-k), cc_complete_close (with the repaired filter, keyed on the two-decimal buckets of BOTH parameters, the surviving report is within 0.01 in both parameters of a report lying within half a terminal range of the crossing), pinned_filter_counterexample (F25: keyed on the first parameter only the filter drops the second of two crossings), self_keeps_nonadjacent / self_mem_iff (the second loop of getSelfIntersections reports every intersection found for non-neighbouring segments and, for neighbouring ones, exactly those inside the 1e-2 window; pinned_self_window_counterexample: F26), dedupe_key_survives / key_close / key_far (the first report of every key survives; two reports whose parameters are 0.02 or more apart never share a two-decimal "
               "key), cc_ranges (every reported parameter is the midpoint of a sub-range: inside [0,1]), segEnv_split (the real halving "
               "retraces the curve: C01), overlap_of_common_point, phantom_counterexample (K3), loop_params (regenerated hasLoop, real sqrt: whenever it returns (t1, t2) the curve has the same point at both and t1 != t2); model tied to _curve_curve_intersections_t by exact comparison of the reported pairs")
 LEVEL_NOTE = "trusted: Lean kernel + Mathlib, axioms {propext, Classical.choice, Quot.sound}, translator (hasLoop, box predicates), hand model Model/CC.lean (correspondence per run)"
@@ -45,7 +45,7 @@ def classify_pair(P, Q):
     for t, u, ang in xs:
         if ang < 5.0:
             return "tangential"
-        if min(t, 1 - t, u, 1 - u) < 0.01:
+        if min(t, 1 - t, u, 1 - u) < 0.001:
             return "near-end"
     for i in range(len(xs)):
         for j in range(i + 1, len(xs)):
@@ -166,8 +166,6 @@ def check_path(segs):
             if isinstance(ref, str):
                 return "skip:" + ref
             for t, u in ref:
-                if not (0.011 < t < 0.989):
-                    return "skip:window"
                 c = cr.bez(segs[i], t)
                 if not any(math.hypot(c[0] - x.point.x, c[1] - x.point.y) <= tol for x in got):
                     return "the crossing of segments %d and %d at %r is not among the %d reported self-intersections" % (i, j, c, len(got))
@@ -363,6 +361,56 @@ def model_corr(ctx):
     return {"model_compared": len(metas), "model_nonempty": nonempty, "model_borderline": borderline}, dis
 
 
+def self_corr(ctx):
+    """second loop of getSelfIntersections against CC.selfPairs: the model gets what `intersections` returned for every pair, in loop
+    order, and must report the same (t1, t2) sequence as the real query (after its loop entries)"""
+    rng = ctx.rng
+    lines, metas = [], []
+    for i in range(10 * ctx.scale):
+        segs = rand_closed(rng)
+        if i % 3 == 2:
+            # a crossing of two non-neighbouring segments close to an end of one of them (F26 family): bend segment 2 so that it passes
+            # through a point of segment 0 just after that segment's start / before its end
+            if len(segs) >= 4:
+                t = rng.choice([rng.uniform(0.001, 0.009), rng.uniform(0.991, 0.999)])
+                c = cr.bez(segs[0], t)
+                s2 = segs[2]
+                if len(s2) >= 3:
+                    u = 0.5
+                    m = cr.bez(s2, u)
+                    k = 1 if len(s2) == 3 else rng.choice([1, 2])
+                    w = {3: 0.5, 4: 0.375}[len(s2)]
+                    s2 = list(s2)
+                    s2[k] = (s2[k][0] + (c[0] - m[0]) / w, s2[k][1] + (c[1] - m[1]) / w)
+                    segs[2] = s2
+        closed = rng.random() < 0.75
+        path = oc.path_from(segs, closed)
+        sl = path.asSegments()
+        n = len(sl)
+        try:
+            got = path.getSelfIntersections()
+        except Exception:
+            continue
+        nloops = sum(1 for x in got if x.seg1 is x.seg2)
+        groups = []
+        for i1 in range(n):
+            for i2 in range(i1 + 1, n):
+                prs = [(x.t1, x.t2) for x in sl[i1].intersections(sl[i2])]
+                groups.append("%d %d %s" % (i1, i2, " ".join("%s %s" % (drive.rat(a), drive.rat(b)) for a, b in prs)))
+        lines.append("model self.pairs %d %d | %s" % (1 if closed else 0, n, " | ".join(groups)))
+        metas.append((segs, closed, [(x.t1, x.t2) for x in got[nloops:]]))
+    replies = drive.run_lines(lines, timeout=3000)
+    dis = []
+    kept = 0
+    for (segs, closed, got), rep in zip(metas, replies):
+        exp = drive.parse_ok(rep)
+        flat = [F(v) for p in got for v in p]
+        kept += len(got)
+        if exp is None or [v for k, v in enumerate(exp) if k % 4 >= 2] != flat:
+            dis.append({"kind": "model-vs-impl", "model": "self.pairs", "segs": segs, "closed": closed, "lean": rep[:300], "impl": repr(got)[:300]})
+    return {"self_compared": len(metas), "self_reports": kept}, dis
+
+
 def same_up_to_borderline(exp, flat):
     """the two reports describe the same crossings: every pair of one is within 2^-8 of a pair of the other"""
     a = list(zip(exp[0::2], exp[1::2]))
@@ -397,8 +445,10 @@ def correspondence(ctx):
     stats, dis = tv.validate(TV_DEFS, ctx.rng, 30 * ctx.scale, tol_rel=1e-7, env_hook=env_hook)
     m, d2 = model_corr(ctx)
     stats.update(m)
+    m3, d3 = self_corr(ctx)
+    stats.update(m3)
     stats["distinct_nontrivial"] = 0
-    return stats, dis + d2
+    return stats, dis + d2 + d3
 
 
 def check_after_edit(P, seed):
